@@ -246,6 +246,45 @@ def scenario(job):
     return res
 
 
+def sequence(job):
+    """several refreshes in a row on one cache directory: after every step the cache holds the previous or the
+    complete new contents of *that* step (a failed or killed refresh must leave nothing behind that a later one picks up)"""
+    (state, steps, old, new, new2, server) = job
+    home, cache, prev = make_home(state, old, server.url("/ok"))
+    res = {"state": state, "steps": [s[0] for s in steps], "problems": []}
+    try:
+        cfg = os.path.join(home, "config", "rink", "config.toml")
+        for i, (path, ok, kill_at) in enumerate(steps):
+            txt = open(cfg).read()
+            txt = re.sub(r'endpoint = "[^"]*"', 'endpoint = "%s"' % server.url(path), txt)
+            open(cfg, "w").write(txt)
+            before = read_cache(cache)
+            if kill_at:
+                run_rink(home, ["--fetch-currency"], strace_log=os.path.join(home, "k.log"),
+                         inject="inject=write:signal=SIGKILL:when=%d" % kill_at)
+            else:
+                run_rink(home, ["--fetch-currency"])
+            after = read_cache(cache)
+            body = new2 if path == "/ok2" else new
+            admissible = [before] + ([body] if ok else [])
+            if kill_at:
+                admissible = [before, body]
+            if ok and not kill_at and after != body:
+                res["problems"].append(("cache_contents_in_sequence", "step %d (%s): successful refresh left %s bytes, expected the complete body of %d bytes" % (
+                    i, path, None if after is None else len(after), len(body))))
+                break
+            if after not in admissible:
+                res["problems"].append(("cache_contents_in_sequence", "step %d (%s): cache has %s bytes: neither the previous nor the complete new contents" % (
+                    i, path, None if after is None else len(after))))
+                break
+        rc2, out2, err2 = run_rink(home, ["1 + 1"])
+        if rc2 != 0 or "2 (dimensionless)" not in out2:
+            res["problems"].append(("next_start_failed", "after the sequence rc=%s" % rc2))
+    finally:
+        shutil.rmtree(home, ignore_errors=True)
+    return res
+
+
 def crash_points(run, old, new, server, state):
     """kill -9 the client at every file syscall of a successful refresh"""
     endpoint = server.url("/ok")
@@ -316,7 +355,8 @@ def run(tier, seed):
                        "temporary files left behind by SIGKILL are not part of the statement"]
     build_cli()
     old, new = bodies()
-    server = FaultServer(new)
+    new2 = old[:-2] + b" ]" if old.rstrip().endswith(b"]") else old      # a second, much shorter complete body (valid JSON)
+    server = FaultServer(new, new2)
     try:
         rng = random.Random(seed)
         jobs = []
@@ -354,6 +394,27 @@ def run(tier, seed):
             if read_cache(cache) != prev and read_cache(cache) != new:
                 run.violation({"kind": "cache_contents", "cache_state": state, "entry": "startup-serial"}, {}, "")
             shutil.rmtree(home, ignore_errors=True)
+        # sequences of refreshes on one cache directory (failed / killed, then a shorter complete body, ...)
+        L = len(new)
+        seqs = []
+        for state in ("absent", "stale"):
+            for k in ([L // 2, 20000, L - 1] if tier == "quick" else [1, 100, 16384, 20000, L // 3, L // 2, L - 100, L - 1]):
+                seqs.append((state, [("/cl_cut/%d" % k, False, 0), ("/ok2", True, 0)], old, new, new2, server))
+                seqs.append((state, [("/chunk_cut/%d" % k, False, 0), ("/ok2", True, 0), ("/ok", True, 0)], old, new, new2, server))
+            seqs.append((state, [("/ok", True, 0), ("/ok2", True, 0), ("/ok", True, 0)], old, new, new2, server))
+            seqs.append((state, [("/stall/3000", False, 0), ("/ok2", True, 0)], old, new, new2, server))
+            for kill_at in ([3, 6] if tier == "quick" else [2, 3, 4, 6, 9, 12]):
+                seqs.append((state, [("/ok", True, kill_at), ("/ok2", True, 0)], old, new, new2, server))
+        with ThreadPoolExecutor(max_workers=nproc()) as ex:
+            for res in ex.map(sequence, seqs):
+                run.evaluations += 1
+                if res["problems"]:
+                    for kind, what in res["problems"]:
+                        run.violation({"kind": kind, "cache_state": res["state"], "first_step": res["steps"][0].split("/")[1]},
+                                      {"steps": res["steps"], "what": what}, "a sequence of refreshes left a partial or mixed cache file")
+                else:
+                    run.count("sequence_ok")
+                    run.seen("seq|%s|%s" % (res["state"], ",".join(res["steps"])))
         for state in (["stale"] if tier == "quick" else ["absent", "stale", "unreadable_stale", "fresh"]):
             crash_points(run, old, new, server, state)
     finally:
